@@ -9,6 +9,7 @@ use serde::{Deserialize, Serialize};
 use serde_with::serde_as;
 use starknet_core::types::NonZeroFelt;
 use starknet_crypto::{pedersen_hash, poseidon_hash_many, Felt};
+use starknet_types_core::felt::FeltIsZeroError;
 
 pub const MAX_LOG_N_STEPS: Felt = Felt::from_hex_unchecked("0x50");
 pub const MAX_RANGE_CHECK: Felt = Felt::from_hex_unchecked("0xffff");
@@ -64,7 +65,7 @@ impl PublicInput {
         z: Felt,
         alpha: Felt,
         public_memory_column_size: Felt,
-    ) -> Felt {
+    ) -> Result<Felt, FeltIsZeroError> {
         let (pages_product, total_length) = self.get_public_memory_product(z, alpha);
 
         // Pad and divide
@@ -74,9 +75,10 @@ impl PublicInput {
         assert!(total_length <= public_memory_column_size);
         let denominator_pad = padded.pow_felt(&(public_memory_column_size - total_length));
 
-        numerator
-            .field_div(&NonZeroFelt::from_felt_unchecked(pages_product))
-            .field_div(&NonZeroFelt::from_felt_unchecked(denominator_pad))
+        // A zero product (e.g. a continuous page header declaring `prod = 0`) has no inverse.
+        Ok(numerator
+            .field_div(&NonZeroFelt::try_from(pages_product)?)
+            .field_div(&NonZeroFelt::try_from(denominator_pad)?))
     }
     // Checks that the main page starts with the `program_len` program cells, at consecutive
     // addresses from `initial_pc`, and ends with the `output_len` output cells, at consecutive
